@@ -123,7 +123,7 @@ def _work(item):
     return job_idx, job, stack, st
 
 
-def explore(path_fn, jobs, *, repo, procs=None, chunk=150, wall_cap=3600, seed=0, max_paths=None, opts=None, stop_after=200):
+def explore(path_fn, jobs, *, repo, procs=None, chunk=150, wall_cap=3600, seed=0, max_paths=None, opts=None, stop_after=200, ignore_labels=()):
     """Explore every job exhaustively.  Returns aggregated statistics."""
     global _PATH_FN, _REPO, _OPTS
     _PATH_FN = path_fn
@@ -181,7 +181,7 @@ def explore(path_fn, jobs, *, repo, procs=None, chunk=150, wall_cap=3600, seed=0
                     i, job, left, st = r.get()
                     merge(i, st)
                     queue.extend((i, job, p, False) for p in left)
-                nviol = sum(agg["viol_counts"].values())
+                nviol = sum(n for l, n in agg["viol_counts"].items() if not l.startswith(tuple(ignore_labels) or ("\0",)))
                 if time.time() - t0 > wall_cap or (max_paths and agg["paths"] >= max_paths) or \
                         (nviol >= stop_after and time.time() - t0 > 60 and len(agg["violations"]) >= 3):
                     # counterexamples do not need an exhaustive exploration: once enough have been collected and the
